@@ -162,16 +162,19 @@ func Parse(b []byte) (message util.Message, err error) {
 		message = new(PortStatus)
 		err = message.UnmarshalBinary(b)
 	case Type_PacketOut:
-		break
+		message = NewPacketOut()
+		err = message.UnmarshalBinary(b)
 	case Type_FlowMod:
 		message = NewFlowMod()
 		err = message.UnmarshalBinary(b)
 	case Type_GroupMod:
-		break
+		message = NewGroupMod()
+		err = message.UnmarshalBinary(b)
 	case Type_PortMod:
-		break
+		message = NewPortMod(0)
+		err = message.UnmarshalBinary(b)
 	case Type_TableMod:
-		break
+		err = errors.New("Parsing of table-mod messages is not supported.")
 	case Type_BarrierRequest:
 		message = new(common.Header)
 		err = message.UnmarshalBinary(b)
@@ -179,9 +182,9 @@ func Parse(b []byte) (message util.Message, err error) {
 		message = new(common.Header)
 		err = message.UnmarshalBinary(b)
 	case Type_QueueGetConfigRequest:
-		break
+		err = errors.New("Parsing of queue-get-config-request messages is not supported.")
 	case Type_QueueGetConfigReply:
-		break
+		err = errors.New("Parsing of queue-get-config-reply messages is not supported.")
 	case Type_MultiPartRequest:
 		message = new(MultipartRequest)
 		err = message.UnmarshalBinary(b)
